@@ -171,6 +171,7 @@ type optSnap struct {
 }
 
 type bSnap struct {
+	nCtorArgs, nCtorAsgs int
 	key   string // pkg.object/name
 	vir   string
 	head  string // everything but the options
@@ -192,7 +193,8 @@ func snapOpt(o ast.Option) optSnap {
 }
 
 func snapBuilder(schemas ast.Schemas, b ast.Builder) bSnap {
-	s := bSnap{key: b.For.SelfRef.ReferredPkg + "." + b.For.Name + "/" + b.Name, vir: virBuilder(b), wt: goWT(schemas, b), nFact: len(b.Factories)}
+	s := bSnap{key: b.For.SelfRef.ReferredPkg + "." + b.For.Name + "/" + b.Name, vir: virBuilder(b), wt: goWT(schemas, b), nFact: len(b.Factories),
+		nCtorArgs: len(b.Constructor.Args), nCtorAsgs: len(b.Constructor.Assignments)}
 	b2 := b
 	b2.Options = nil
 	s.head = virBuilder(b2)
@@ -582,7 +584,17 @@ func c17OracleRun(cs c17Case, decoded []cogyaml.Veneers, wantStatus string, want
 						if strings.HasPrefix(a.wt, "constructor") {
 							place = "constructor"
 						}
-						setFail(fmt.Sprintf("FAIL wt-broken(%s/%s/%s): builder %s: %s", who, place, why, a.key, a.wt))
+						detail := ""
+						if st.isBuilder && st.kind == "promote" && len(before) == len(after) {
+							// how much the rule put into the constructors: it declares one argument per promoted option
+							dArgs, dAsgs := 0, 0
+							for x := range before {
+								dArgs += after[x].nCtorArgs - before[x].nCtorArgs
+								dAsgs += after[x].nCtorAsgs - before[x].nCtorAsgs
+							}
+							detail = fmt.Sprintf(" [promote: +%d constructor assignments, +%d constructor arguments]", dAsgs, dArgs)
+						}
+						setFail(fmt.Sprintf("FAIL wt-broken(%s/%s/%s): builder %s: %s%s", who, place, why, a.key, a.wt, detail))
 						break
 					}
 				}
